@@ -35,7 +35,7 @@ class Model:
                                   stdin=subprocess.PIPE, stdout=subprocess.PIPE, text=True, bufsize=1)
         self.n = 0
         self.oracle_log = []      # every oracle line sent (replayable; also used by the kernel path)
-        self.queries = {"V": 0, "P": 0, "S": 0}
+        self.queries = {"V": 0, "P": 0, "S": 0, "H": 0}
 
     def close(self):
         try:
@@ -50,6 +50,10 @@ class Model:
         if kind == "V":
             k, m, s = (bytes.fromhex(x) for x in (parts[1], parts[2] if len(parts) > 2 else "", parts[3] if len(parts) > 3 else ""))
             line = "V %s %s %s %d" % (k.hex(), m.hex(), s.hex(), 1 if ed_verify(k, m, s) else 0)
+        elif kind == "H":
+            import hashlib
+            m = bytes.fromhex(parts[1]) if len(parts) > 1 else b""
+            line = "H %s %s" % (m.hex(), hashlib.sha256(m).hexdigest())
         elif kind == "P":
             sd = bytes.fromhex(parts[1])
             line = "P %s %s" % (sd.hex(), ed_pub(sd).hex())
